@@ -9,6 +9,7 @@
 #include "../genlib/optconv.h"
 #include <tins/utils/radiotap_parser.h>
 #include <tins/pdu_iterator.h>
+#include <tins/packet.h>
 #include <cstdlib>
 
 using namespace verif;
@@ -210,6 +211,32 @@ void prop(Src& s, Ctx& ctx) {
         const PDU& cref = *pdu;
         for (const PDU& layer : iterate_pdus(cref)) { (void)layer.pdu_type(); if (++cnt > 100000) break; }
         VCHECK(ctx, cnt == pv.size(), "C01:pdu-iterator-count", "iterate_pdus visited " << cnt << " layers, chain has " << pv.size());
+        // the other overloads (pointer / reference / Packet, const and not) and the remaining iterator operators
+        size_t c2 = 0, c3 = 0, c4 = 0, c5 = 0, c6 = 0;
+        const PDU* cptr = pdu.get();
+        for (const PDU& layer : iterate_pdus(cptr)) { (void)layer.size(); if (++c2 > 100000) break; }
+        for (PDU& layer : iterate_pdus(*pdu)) { (void)layer.header_size(); if (++c3 > 100000) break; }
+        {
+            PDUIteratorRange<PDUIterator> r = iterate_pdus(pdu.get());
+            PDUIterator last = r.begin();
+            for (PDUIterator it = r.begin(); it != r.end(); it++) { last = it; (void)(*it).pdu_type(); (void)it->inner_pdu(); if (++c4 > 100000) break; }
+            // and back to the root with the decrement operators
+            size_t back = 0;
+            for (PDUIterator it = last; it != r.end() && back <= 100000; ) { ++back; if (it->parent_pdu() == nullptr) break; if (back & 1) --it; else it--; }
+            VCHECK(ctx, c4 == 0 || back == c4, "C01:pdu-iterator-count", "walking back from the innermost layer took " << back << " steps, chain has " << c4);
+            ConstPDUIterator ci(r.begin());   // conversion from the mutable iterator
+            (void)ci->pdu_type();
+            (void)(*ci).pdu_type();
+        }
+        {
+            Packet pk(pdu.get(), Timestamp(), Packet::own_pdu());
+            for (PDU& layer : iterate_pdus(pk)) { (void)layer.pdu_type(); if (++c5 > 100000) break; }
+            const Packet& cpk = pk;
+            for (const PDU& layer : iterate_pdus(cpk)) { (void)layer.pdu_type(); if (++c6 > 100000) break; }
+            pk.release_pdu();
+        }
+        VCHECK(ctx, c2 == cnt && c3 == cnt && c4 == cnt && c5 == cnt && c6 == cnt, "C01:pdu-iterator-count",
+               "iterate_pdus overloads visited " << c2 << "/" << c3 << "/" << c4 << "/" << c5 << "/" << c6 << " layers, chain has " << cnt);
     }
     // clone is readable and renders identically; destruction of both is LeakSanitizer's business
     {
